@@ -395,11 +395,13 @@ def leaky_clamp(
     x = input
 
     if min is not None:
-        min = torch.as_tensor(min).to(x)
+        # (converted directly into the dtype of the input: a Python number taken through
+        #  the default dtype first would be rounded to float32 in a float64 computation)
+        min = torch.as_tensor(min, dtype=x.dtype, device=x.device)
         x = x.maximum(min + clamped_slope * (x - min))
 
     if max is not None:
-        max = torch.as_tensor(max).to(x)
+        max = torch.as_tensor(max, dtype=x.dtype, device=x.device)
         x = x.minimum(max + clamped_slope * (x - max))
 
     if min is not None and max is not None:
